@@ -281,7 +281,8 @@ fn join_line(
 pub fn stroke_to_path(path: &Path, style: &StrokeStyle) -> Path {
     let mut stroked_path = PathBuilder::new();
 
-    if style.width <= 0. {
+    // also rejects a NaN width, which would otherwise produce NaN offset points
+    if !(style.width > 0.) {
         return stroked_path.finish();
     }
 
